@@ -83,7 +83,7 @@ CLAIMED = {
          "numpy.histogram_bin_edges, counts by exact integer inequalities (Doane on squared quantities); all derived attributes are "
          "recomputed by the model from the pairs and compared; invalid specifications must be refused, valid ones accepted."),
    note=BASE_NOTE + "The factories' floating-point arithmetic is not modelled (rules are checked on the result within stated "
-        "tolerances); astropy-based methods (blocks, knuth, scott, freedman) are not installed here and not covered; "
+        "tolerances); of the astropy-based methods scott / freedman / blocks are covered (edges identical to astropy's, Scott and Freedman-Diaconis width formulas on cubes), knuth needs scipy which is not installed; "
         "is_regular is compared with numpy.allclose's absolute-tolerance meaning, which is what the code documents."),
  "C08": dict(
    technique="Coq proof of the document round trip (of_doc (to_doc h) = h for every well-formed histogram, same document again, member-wise for collections) and of the version order (total order on PEP 440 keys; refused iff older) + extracted-model correspondence on documents, readers and version decisions",
